@@ -556,6 +556,8 @@ fn main() {
                         ctx.bump("big-product-events", 1);
                         ctx.bump("big-product-cube-products", (a.len() * b.len()) as u64);
                         let (l, r) = if rng.bool() { (a, b) } else { (b, a) };
+                        // and the OR of the two long lists, and of a list with itself
+                        run(ctx, "expr|big-or", nn, &[l.clone(), r.clone()], &[Tok::Leaf(0), Tok::Leaf(1), Tok::Or, Tok::Leaf(0), Tok::Or]);
                         run(ctx, "expr|big-disjoint", nn, &[l, r], &[Tok::Leaf(0), Tok::Leaf(1), Tok::And]);
                         continue;
                     }
@@ -659,5 +661,6 @@ fn main() {
     required.push("expr|big-product".into());
     required.push("expr|big-square".into());
     required.push("expr|big-disjoint".into());
+    required.push("expr|big-or".into());
     cli.finish(&ctx, &required, RULE);
 }
